@@ -19,7 +19,11 @@ typedef struct S_class_tbb__detail__r1__threading_control tc_t;
 
 #define CAT_(a, b) a##b
 #define THR(s) CAT_(vp_thr_visit_, s)
+/* arena storage as one typed, zero-initialised object with the real layout: mailboxes | arena_base + slot 0 | other slots */
+#define NSL (NSLOTS < 2 ? 2 : NSLOTS)
+static struct { struct S_class_tbb__detail__r1__mail_outbox mb[NSL]; arena_t a; struct S_class_tbb__detail__r1__arena_slot more[NSL - 1]; } AMEM __attribute__((aligned(128)));
 static arena_t* A;
+static td_t TDS[3] __attribute__((aligned(128)));
 static unsigned NS, NR, ALLOT, PRE;
 static unsigned epoch; static int forced;
 static int in[3], widx[3], isw[3];
@@ -71,7 +75,8 @@ static const u16 hints_[3] = { HINTS };
 #endif
 int main(void) {
   static u8 tc_dummy[64];
-  A = vp_arena_make((tc_t*)tc_dummy, NSLOTS, NRES);
+  VP_ASSERT(vp_sizeof_arena() == sizeof(arena_t) && vp_sizeof_slot() == sizeof(AMEM.more[0]) && vp_sizeof_outbox() == sizeof(AMEM.mb[0]) && vp_sizeof_td() == sizeof(td_t) && sizeof(AMEM) == NSL * vp_sizeof_outbox() + vp_sizeof_arena() + (NSL - 1) * vp_sizeof_slot(), "generated struct layout differs from the C++ one");
+  A = vp_arena_make((u8*)&AMEM, (tc_t*)tc_dummy, NSLOTS, NRES);
   NS = vp_arena_num_slots(A); NR = vp_arena_reserved(A);
   VP_ASSERT(NS == (NSLOTS < 2 ? 2 : NSLOTS) && NR == NRES, "arena geometry");
   ALLOT = (unsigned)vp_nd_range(0, NT);
@@ -83,11 +88,11 @@ int main(void) {
 #endif
   for (unsigned i = 0; i < NS; i++) if ((PRE >> i) & 1) vp_slot_force(A, i, 1);
   unsigned refs0 = vp_arena_refs(A);
-  td_t* td0 = vp_td_make(HINT(0), ROLE0, (u32)vp_nd(), (u32)vp_nd());
-  td_t* td1 = vp_td_make(HINT(1), ROLE1, (u32)vp_nd(), (u32)vp_nd());
+  td_t* td0 = vp_td_make((u8*)&TDS[0], HINT(0), ROLE0, (u32)vp_nd(), (u32)vp_nd());
+  td_t* td1 = vp_td_make((u8*)&TDS[1], HINT(1), ROLE1, (u32)vp_nd(), (u32)vp_nd());
   THR(a_start)(A, td0, 0, ROLE0, NV0); THR(b_start)(A, td1, 1, ROLE1, NV1);
 #if NT > 2
-  td_t* td2 = vp_td_make(HINT(2), ROLE2, (u32)vp_nd(), (u32)vp_nd());
+  td_t* td2 = vp_td_make((u8*)&TDS[2], HINT(2), ROLE2, (u32)vp_nd(), (u32)vp_nd());
   THR(c_start)(A, td2, 2, ROLE2, NV2);
 #endif
   for (int r = 0; r < ROUNDS; r++) {
